@@ -506,7 +506,11 @@ SVla ==        \* T name[len]; with a run-time length (6.7.6.2p5: the length sha
   /\ LET r == Eval(S.len) IN
        IF ~r.ok THEN Fail(r.why)
        ELSE IF ~IsInt(r.t) \/ ~FitsNat31(PromV(r)) \/ Lo31(PromV(r)) = 0 \/ Lo31(PromV(r)) > 64 THEN Fail("vla-length")
-       ELSE LET t == [k |-> "a", t |-> S.t, n |-> Lo31(PromV(r))]  o == NewObj IN
+       ELSE LET r2 == IF "len2" \in DOMAIN S THEN Eval(S.len2) ELSE r IN      \* optional second (inner) variable dimension
+            IF ~r2.ok THEN Fail(r2.why)
+            ELSE IF ~IsInt(r2.t) \/ ~FitsNat31(PromV(r2)) \/ Lo31(PromV(r2)) = 0 \/ Lo31(PromV(r2)) > 64 THEN Fail("vla-length")
+            ELSE LET et == IF "len2" \in DOMAIN S THEN [k |-> "a", t |-> S.t, n |-> Lo31(PromV(r2))] ELSE S.t
+                     t == [k |-> "a", t |-> et, n |-> Lo31(PromV(r))]  o == NewObj IN
             /\ mem' = (o :> [val |-> ZeroOf(t), live |-> TRUE]) @@ mem
             /\ env' = (S.n :> [obj |-> o, t |-> t]) @@ env
             /\ ck' = Pop /\ CTick /\ UNCHANGED <<cpid, genv, cout, cstatus, cret, depth>>
